@@ -49,12 +49,18 @@ HostnameProofs.vos HostnameProofs.vok HostnameProofs.required_vos: HostnameProof
 Resolver.vo Resolver.glob Resolver.v.beautified Resolver.required_vo: Resolver.v Base.vo Fields.vo SrcFacts.vo Msg.vo SrcDecisions.vo Cache.vo CacheSpec.vo Sim.vo Prober.vo
 Resolver.vio: Resolver.v Base.vio Fields.vio SrcFacts.vio Msg.vio SrcDecisions.vio Cache.vio CacheSpec.vio Sim.vio Prober.vio
 Resolver.vos Resolver.vok Resolver.required_vos: Resolver.v Base.vos Fields.vos SrcFacts.vos Msg.vos SrcDecisions.vos Cache.vos CacheSpec.vos Sim.vos Prober.vos
+ResolverProofs.vo ResolverProofs.glob ResolverProofs.v.beautified ResolverProofs.required_vo: ResolverProofs.v Base.vo Fields.vo SrcFacts.vo Msg.vo SrcDecisions.vo Cache.vo CacheSpec.vo CacheProofs.vo Sim.vo Prober.vo Resolver.vo
+ResolverProofs.vio: ResolverProofs.v Base.vio Fields.vio SrcFacts.vio Msg.vio SrcDecisions.vio Cache.vio CacheSpec.vio CacheProofs.vio Sim.vio Prober.vio Resolver.vio
+ResolverProofs.vos ResolverProofs.vok ResolverProofs.required_vos: ResolverProofs.v Base.vos Fields.vos SrcFacts.vos Msg.vos SrcDecisions.vos Cache.vos CacheSpec.vos CacheProofs.vos Sim.vos Prober.vos Resolver.vos
 Provider.vo Provider.glob Provider.v.beautified Provider.required_vo: Provider.v Base.vo Fields.vo SrcFacts.vo Msg.vo SrcDecisions.vo Sim.vo Prober.vo Hostname.vo
 Provider.vio: Provider.v Base.vio Fields.vio SrcFacts.vio Msg.vio SrcDecisions.vio Sim.vio Prober.vio Hostname.vio
 Provider.vos Provider.vok Provider.required_vos: Provider.v Base.vos Fields.vos SrcFacts.vos Msg.vos SrcDecisions.vos Sim.vos Prober.vos Hostname.vos
 ProviderSpec.vo ProviderSpec.glob ProviderSpec.v.beautified ProviderSpec.required_vo: ProviderSpec.v Base.vo Fields.vo SrcFacts.vo Msg.vo SrcDecisions.vo Cache.vo CacheSpec.vo Sim.vo Prober.vo Hostname.vo Resolver.vo Provider.vo
 ProviderSpec.vio: ProviderSpec.v Base.vio Fields.vio SrcFacts.vio Msg.vio SrcDecisions.vio Cache.vio CacheSpec.vio Sim.vio Prober.vio Hostname.vio Resolver.vio Provider.vio
 ProviderSpec.vos ProviderSpec.vok ProviderSpec.required_vos: ProviderSpec.v Base.vos Fields.vos SrcFacts.vos Msg.vos SrcDecisions.vos Cache.vos CacheSpec.vos Sim.vos Prober.vos Hostname.vos Resolver.vos Provider.vos
+ProviderProofs.vo ProviderProofs.glob ProviderProofs.v.beautified ProviderProofs.required_vo: ProviderProofs.v Base.vo Fields.vo SrcFacts.vo Msg.vo SrcDecisions.vo Cache.vo CacheSpec.vo CacheProofs.vo Sim.vo Prober.vo Hostname.vo HostnameProofs.vo Resolver.vo Provider.vo ProviderSpec.vo
+ProviderProofs.vio: ProviderProofs.v Base.vio Fields.vio SrcFacts.vio Msg.vio SrcDecisions.vio Cache.vio CacheSpec.vio CacheProofs.vio Sim.vio Prober.vio Hostname.vio HostnameProofs.vio Resolver.vio Provider.vio ProviderSpec.vio
+ProviderProofs.vos ProviderProofs.vok ProviderProofs.required_vos: ProviderProofs.v Base.vos Fields.vos SrcFacts.vos Msg.vos SrcDecisions.vos Cache.vos CacheSpec.vos CacheProofs.vos Sim.vos Prober.vos Hostname.vos HostnameProofs.vos Resolver.vos Provider.vos ProviderSpec.vos
 CacheSpec.vo CacheSpec.glob CacheSpec.v.beautified CacheSpec.required_vo: CacheSpec.v Base.vo Fields.vo SrcFacts.vo Msg.vo Cache.vo
 CacheSpec.vio: CacheSpec.v Base.vio Fields.vio SrcFacts.vio Msg.vio Cache.vio
 CacheSpec.vos CacheSpec.vok CacheSpec.required_vos: CacheSpec.v Base.vos Fields.vos SrcFacts.vos Msg.vos Cache.vos
@@ -76,21 +82,21 @@ Properties_C03.vos Properties_C03.vok Properties_C03.required_vos: Properties_C0
 Properties_C07.vo Properties_C07.glob Properties_C07.v.beautified Properties_C07.required_vo: Properties_C07.v Base.vo Fields.vo SrcFacts.vo Msg.vo SrcDecisions.vo Sim.vo Prober.vo ProberProofs.vo
 Properties_C07.vio: Properties_C07.v Base.vio Fields.vio SrcFacts.vio Msg.vio SrcDecisions.vio Sim.vio Prober.vio ProberProofs.vio
 Properties_C07.vos Properties_C07.vok Properties_C07.required_vos: Properties_C07.v Base.vos Fields.vos SrcFacts.vos Msg.vos SrcDecisions.vos Sim.vos Prober.vos ProberProofs.vos
-Properties_C13.vo Properties_C13.glob Properties_C13.v.beautified Properties_C13.required_vo: Properties_C13.v Base.vo Fields.vo SrcFacts.vo Msg.vo SrcDecisions.vo Sim.vo Prober.vo Hostname.vo Provider.vo ProviderSpec.vo
-Properties_C13.vio: Properties_C13.v Base.vio Fields.vio SrcFacts.vio Msg.vio SrcDecisions.vio Sim.vio Prober.vio Hostname.vio Provider.vio ProviderSpec.vio
-Properties_C13.vos Properties_C13.vok Properties_C13.required_vos: Properties_C13.v Base.vos Fields.vos SrcFacts.vos Msg.vos SrcDecisions.vos Sim.vos Prober.vos Hostname.vos Provider.vos ProviderSpec.vos
-Properties_C12.vo Properties_C12.glob Properties_C12.v.beautified Properties_C12.required_vo: Properties_C12.v Base.vo Fields.vo SrcFacts.vo Msg.vo SrcDecisions.vo Sim.vo Prober.vo Hostname.vo Provider.vo ProviderSpec.vo
-Properties_C12.vio: Properties_C12.v Base.vio Fields.vio SrcFacts.vio Msg.vio SrcDecisions.vio Sim.vio Prober.vio Hostname.vio Provider.vio ProviderSpec.vio
-Properties_C12.vos Properties_C12.vok Properties_C12.required_vos: Properties_C12.v Base.vos Fields.vos SrcFacts.vos Msg.vos SrcDecisions.vos Sim.vos Prober.vos Hostname.vos Provider.vos ProviderSpec.vos
-Properties_C11.vo Properties_C11.glob Properties_C11.v.beautified Properties_C11.required_vo: Properties_C11.v Base.vo Fields.vo SrcFacts.vo Msg.vo SrcDecisions.vo Sim.vo Prober.vo Hostname.vo Provider.vo ProviderSpec.vo
-Properties_C11.vio: Properties_C11.v Base.vio Fields.vio SrcFacts.vio Msg.vio SrcDecisions.vio Sim.vio Prober.vio Hostname.vio Provider.vio ProviderSpec.vio
-Properties_C11.vos Properties_C11.vok Properties_C11.required_vos: Properties_C11.v Base.vos Fields.vos SrcFacts.vos Msg.vos SrcDecisions.vos Sim.vos Prober.vos Hostname.vos Provider.vos ProviderSpec.vos
-Properties_C10.vo Properties_C10.glob Properties_C10.v.beautified Properties_C10.required_vo: Properties_C10.v Base.vo Fields.vo SrcFacts.vo Msg.vo SrcDecisions.vo Sim.vo Prober.vo Hostname.vo Provider.vo ProviderSpec.vo
-Properties_C10.vio: Properties_C10.v Base.vio Fields.vio SrcFacts.vio Msg.vio SrcDecisions.vio Sim.vio Prober.vio Hostname.vio Provider.vio ProviderSpec.vio
-Properties_C10.vos Properties_C10.vok Properties_C10.required_vos: Properties_C10.v Base.vos Fields.vos SrcFacts.vos Msg.vos SrcDecisions.vos Sim.vos Prober.vos Hostname.vos Provider.vos ProviderSpec.vos
-Properties_C16.vo Properties_C16.glob Properties_C16.v.beautified Properties_C16.required_vo: Properties_C16.v Base.vo Fields.vo SrcFacts.vo Msg.vo SrcDecisions.vo Cache.vo Sim.vo Resolver.vo
-Properties_C16.vio: Properties_C16.v Base.vio Fields.vio SrcFacts.vio Msg.vio SrcDecisions.vio Cache.vio Sim.vio Resolver.vio
-Properties_C16.vos Properties_C16.vok Properties_C16.required_vos: Properties_C16.v Base.vos Fields.vos SrcFacts.vos Msg.vos SrcDecisions.vos Cache.vos Sim.vos Resolver.vos
+Properties_C13.vo Properties_C13.glob Properties_C13.v.beautified Properties_C13.required_vo: Properties_C13.v Base.vo Fields.vo SrcFacts.vo Msg.vo SrcDecisions.vo Sim.vo Prober.vo Hostname.vo Provider.vo ProviderSpec.vo ProviderProofs.vo
+Properties_C13.vio: Properties_C13.v Base.vio Fields.vio SrcFacts.vio Msg.vio SrcDecisions.vio Sim.vio Prober.vio Hostname.vio Provider.vio ProviderSpec.vio ProviderProofs.vio
+Properties_C13.vos Properties_C13.vok Properties_C13.required_vos: Properties_C13.v Base.vos Fields.vos SrcFacts.vos Msg.vos SrcDecisions.vos Sim.vos Prober.vos Hostname.vos Provider.vos ProviderSpec.vos ProviderProofs.vos
+Properties_C12.vo Properties_C12.glob Properties_C12.v.beautified Properties_C12.required_vo: Properties_C12.v Base.vo Fields.vo SrcFacts.vo Msg.vo SrcDecisions.vo Sim.vo Prober.vo Hostname.vo Provider.vo ProviderSpec.vo ProviderProofs.vo
+Properties_C12.vio: Properties_C12.v Base.vio Fields.vio SrcFacts.vio Msg.vio SrcDecisions.vio Sim.vio Prober.vio Hostname.vio Provider.vio ProviderSpec.vio ProviderProofs.vio
+Properties_C12.vos Properties_C12.vok Properties_C12.required_vos: Properties_C12.v Base.vos Fields.vos SrcFacts.vos Msg.vos SrcDecisions.vos Sim.vos Prober.vos Hostname.vos Provider.vos ProviderSpec.vos ProviderProofs.vos
+Properties_C11.vo Properties_C11.glob Properties_C11.v.beautified Properties_C11.required_vo: Properties_C11.v Base.vo Fields.vo SrcFacts.vo Msg.vo SrcDecisions.vo Sim.vo Prober.vo Hostname.vo Provider.vo ProviderSpec.vo ProviderProofs.vo
+Properties_C11.vio: Properties_C11.v Base.vio Fields.vio SrcFacts.vio Msg.vio SrcDecisions.vio Sim.vio Prober.vio Hostname.vio Provider.vio ProviderSpec.vio ProviderProofs.vio
+Properties_C11.vos Properties_C11.vok Properties_C11.required_vos: Properties_C11.v Base.vos Fields.vos SrcFacts.vos Msg.vos SrcDecisions.vos Sim.vos Prober.vos Hostname.vos Provider.vos ProviderSpec.vos ProviderProofs.vos
+Properties_C10.vo Properties_C10.glob Properties_C10.v.beautified Properties_C10.required_vo: Properties_C10.v Base.vo Fields.vo SrcFacts.vo Msg.vo SrcDecisions.vo Sim.vo Prober.vo Hostname.vo Provider.vo ProviderSpec.vo ProviderProofs.vo
+Properties_C10.vio: Properties_C10.v Base.vio Fields.vio SrcFacts.vio Msg.vio SrcDecisions.vio Sim.vio Prober.vio Hostname.vio Provider.vio ProviderSpec.vio ProviderProofs.vio
+Properties_C10.vos Properties_C10.vok Properties_C10.required_vos: Properties_C10.v Base.vos Fields.vos SrcFacts.vos Msg.vos SrcDecisions.vos Sim.vos Prober.vos Hostname.vos Provider.vos ProviderSpec.vos ProviderProofs.vos
+Properties_C16.vo Properties_C16.glob Properties_C16.v.beautified Properties_C16.required_vo: Properties_C16.v Base.vo Fields.vo SrcFacts.vo Msg.vo SrcDecisions.vo Cache.vo Sim.vo Prober.vo Resolver.vo ResolverProofs.vo
+Properties_C16.vio: Properties_C16.v Base.vio Fields.vio SrcFacts.vio Msg.vio SrcDecisions.vio Cache.vio Sim.vio Prober.vio Resolver.vio ResolverProofs.vio
+Properties_C16.vos Properties_C16.vok Properties_C16.required_vos: Properties_C16.v Base.vos Fields.vos SrcFacts.vos Msg.vos SrcDecisions.vos Cache.vos Sim.vos Prober.vos Resolver.vos ResolverProofs.vos
 Properties_C17.vo Properties_C17.glob Properties_C17.v.beautified Properties_C17.required_vo: Properties_C17.v Base.vo Fields.vo SrcFacts.vo Msg.vo SrcDecisions.vo Sim.vo Hostname.vo HostnameProofs.vo
 Properties_C17.vio: Properties_C17.v Base.vio Fields.vio SrcFacts.vio Msg.vio SrcDecisions.vio Sim.vio Hostname.vio HostnameProofs.vio
 Properties_C17.vos Properties_C17.vok Properties_C17.required_vos: Properties_C17.v Base.vos Fields.vos SrcFacts.vos Msg.vos SrcDecisions.vos Sim.vos Hostname.vos HostnameProofs.vos
